@@ -1,6 +1,8 @@
 """C14 — both story loaders build the same story (sibling agreement of the two decoders + tokenizer escape table)."""
 from analysis.facts import callee, callee_short
 from analysis.defuse import Tracer
+from analysis.cfg import cfg
+from analysis.guards import resolve_cond
 from analysis.tables import compared_strings, char_consts_compared, string_uses
 
 SERDE_MOD = 'bladeink::json::json_read::'
@@ -151,6 +153,8 @@ def run(chk, prog):
                'the two loaders do not apply the same upper and lower version bounds: serde %s, streaming %s'
                % (sorted(a_), sorted(b_)), prog.fn('json_read_stream::parse').loc(0))
     one_string_decoder(chk, prog)
+    objects_are_fresh(chk, prog)
+    identifier_keys_test_the_value_kind(chk, prog, tr)
 
 
 def _quote_consts(fn):
@@ -199,3 +203,102 @@ def one_string_decoder(chk, prog):
         chk.decide(RS, chk.key(RS, 'read_obj_key', 'uses-decoder'),
                    any(callee_short(t) == 'JsonTokenizer::read_string' for _, t in rk.calls()),
                    'keys are read by read_string', 'read_obj_key does not call read_string', rk.loc(0))
+
+
+def objects_are_fresh(chk, prog):
+    RF = 'C14.decoded-objects-are-fresh'
+    chk.rule(RF, 'Every runtime object a decoder hands out is a fresh allocation: no decoder function takes an object from '
+             'a thread-local, a static / lazily initialised cell or another cache. A runtime object knows its parent '
+             'container, so an instance shared between positions (one "\\n" value for every line) is adopted by whichever '
+             'container was built last; the serde loader allocates per occurrence, and the two content trees differ.')
+    SHARED = ('LocalKey::with', 'LocalKey::try_with', 'OnceLock::get_or_init', 'LazyLock::force', 'OnceCell::get_or_init',
+              'Lazy::force', 'OnceLock::get', 'LazyCell::force')
+    n_fns, bad = 0, []
+    for fn in sorted(prog.fns.values(), key=lambda f: f.p):
+        if fn.crate != 'bladeink' or ('::json::json_read::' not in fn.p and '::json::json_read_stream::' not in fn.p):
+            continue
+        if '::tests::' in fn.p:
+            continue
+        n_fns += 1
+        for bb, t in fn.calls():
+            cs = callee_short(t)
+            d = t['f'].get('def') or ''
+            if cs in SHARED or 'thread::local::LocalKey' in d or d.startswith('std::sync::once_lock') \
+                    or d.startswith('std::sync::lazy_lock'):
+                bad.append((fn, bb, cs))
+    chk.floor(RF, 'decoder functions examined', n_fns, 40)
+    if not bad:
+        chk.ok(RF, chk.key(RF, 'no-shared-instances'), 'no decoder function reads a thread-local / static cell')
+    for fn, bb, cs in bad:
+        chk.fail(RF, chk.key(RF, prog.root_fn(fn).short, cs),
+                 '%s takes a value from a shared cell (%s): a runtime object handed out from it is one instance for many '
+                 'positions of the content tree' % (prog.root_fn(fn).short, cs), fn.loc(bb))
+
+
+SECONDARY_KEYS = {'var': 'divert: read after the first key made it a divert', 'c': 'divert flag, as above',
+                  'exArgs': 'external divert, as above', 'ci': 'variable pointer context index', 'flg': 'choice point flags',
+                  're': 're-assignment flag of an assignment', 'origins': 'second key of a list value'}
+
+
+def identifier_keys_test_the_value_kind(chk, prog, tr):
+    RK = 'C14.identifier-keys-test-the-value-kind'
+    chk.rule(RK, 'The streaming decoder recognises an object by its first key. The terminating object of a container maps '
+             'the names of named children - any ink identifier - to arrays, so wherever the decoder compares a key with a '
+             'literal that is itself a possible identifier ("list", "originalChoicePath") the branch is taken only together '
+             'with a test of the kind of the value (a named child is an array); keys that are only read after the object '
+             'has been recognised are listed with their reason. The serde decoder handles the terminating object apart '
+             'and plays a story with a knot called "list".')
+    import re as _re
+    from analysis.defuse import du as _du
+    from analysis.tables import const_strings_of_operand as _cs
+    f = prog.fn('json_read_stream::jtoken_to_runtime_object')
+    if not chk.anchor(RK, 'json_read_stream::jtoken_to_runtime_object', f):
+        return
+    g = cfg(f)
+    n = 0
+    for b in range(len(f.blocks)):
+        tt = f.blocks[b]['term']
+        if not tt or tt['k'] != 'switch':
+            continue
+        c = resolve_cond(prog, f, tt['d'], tr)
+        if not c or c.desc[0] != 'call' or not c.desc[1].endswith('::eq') \
+                or 'call:JsonTokenizer::read_obj_key' not in c.desc[2]:
+            continue
+        df = _du(f).single_def(tt['d']['pl']['l'])
+        ks = set()
+        if df and df['kind'] == 'call':
+            for a in df['term']['args']:
+                ks |= set(_cs(f, a, tr))
+        for k in sorted(ks):
+            if not _re.match(r'^[A-Za-z_][A-Za-z0-9_]*$', k):
+                continue
+            n += 1
+            if k in SECONDARY_KEYS:
+                chk.ok(RK, chk.key(RK, k), 'secondary key: ' + SECONDARY_KEYS[k], f.loc(b))
+                continue
+            # the edge taken when the key matches leads straight to a test of the value's kind
+            tgt = [tb for v, tb in tt['ts'] if c.truth_of_value(v)]
+            rest = {0, 1} - {v for v, _ in tt['ts']}
+            if len(rest) == 1 and c.truth_of_value(next(iter(rest))):
+                tgt.append(tt['else'])
+            ok = False
+            for t0 in tgt:
+                cur, hops = t0, 0
+                while hops < 4:
+                    t2 = f.blocks[cur]['term']
+                    if t2 and t2['k'] == 'switch':
+                        c2 = resolve_cond(prog, f, t2['d'], tr)
+                        if c2 and c2.desc[0] == 'discr' and 'JsonValue' in str(c2.desc[1]) \
+                                and 'call:JsonTokenizer::read_value' in c2.desc[2]:
+                            ok = True
+                        break
+                    if t2 and t2['k'] == 'goto':
+                        cur = t2['t']
+                        hops += 1
+                        continue
+                    break
+            chk.decide(RK, chk.key(RK, k), ok, 'taken only for the right kind of value',
+                       'the streaming decoder takes an object whose first key is "%s" for a %s value without looking at the '
+                       'kind of the value: a container with a named child called "%s" (a knot of that name) fails to load, '
+                       'while the serde decoder plays the story' % (k, k, k), f.loc(b))
+    chk.floor(RK, 'identifier-like keys compared by the streaming decoder', n, 6)
